@@ -103,6 +103,8 @@ def cases(tier, seed):
             yield dict(kind='patterns', nx=nx, ny=ny, maxc=maxc, start=s, stop=min(total, s + block))
     yield dict(kind='placements', k=2 if tier == 'quick' else 3)
     yield dict(kind='sparse')
+    for sub in range(4):
+        yield dict(kind='float32', sub=sub)
     yield dict(kind='binspecs')
     for scale in itertools.product(['linear', 'log', 'logicle'], repeat=2):
         yield dict(kind='sample', xscale=scale[0], yscale=scale[1])
@@ -363,6 +365,35 @@ def run_sparse(c, res):
     res.sample({'events outside the grid': [repr(o) for o in outside], 'events inside': [repr(i) for i in inside], 'calls': n})
 
 
+def run_float32(c, res):
+    """single-precision events lying on, and one unit in the last place next to, bin edges that single precision cannot represent: an
+    event belongs to the bin the (double precision) edges put it in -- for counting and for keeping alike"""
+    xe = [0.0, 0.7, 1.4, 2.1]
+    ye = [0.0, 0.3, 0.9]
+    f32 = np.float32
+
+    def around(e):
+        v = f32(e)
+        return [float(v), float(np.nextafter(v, f32(np.inf))), float(np.nextafter(v, f32(-np.inf)))]
+    X = sorted(set(v for e in xe for v in around(e)))
+    Y = sorted(set(v for e in ye for v in around(e)))
+    # the sub-case rotates which of the near-edge events appear (so that ties between bins break differently)
+    ev = [[x, y] for i, x in enumerate(X) for j, y in enumerate(Y) if (i + 2 * j + c['sub']) % 4 != 0]
+    ev += [[0.35, 0.1]] * (2 + c['sub']) + [[1.0, 0.5]] * 3 + [[1.8, 0.6]] * (1 + c['sub'] % 2)
+    for dt in (np.float32, np.float64):
+        arr = np.array([[e[0], -1.0, e[1]] for e in ev], dtype=dt)
+        for sigma in (0.0, 1.0):
+            masks = []
+            for f in (0.0, 0.2, 0.5, 0.8, 1.0):
+                one = dict(c)
+                what = 'density2d(%d %s events on and next to the edges %r x %r, gate_fraction=%r, sigma=%r)' % (len(ev), np.dtype(dt).name, xe, ye, f, sigma)
+                m = judge(res, 'float32', what, arr, [0, 2], [0, 2], lambda: [np.array(xe), np.array(ye)], f, sigma, one, expect_edges=(xe, ye))
+                masks.append((f, m))
+            ing = np.array([assign(float(x), xe) is not None and assign(float(y), ye) is not None for x, y in zip(arr[:, 0].tolist(), arr[:, 2].tolist())])
+            nested_check(res, 'float32', 'density2d(%s events next to edges, sigma=%r)' % (np.dtype(dt).name, sigma), masks, ing, dict(c))
+    res.sample({'edges': [xe, ye], 'events': len(ev), 'dtypes': ['float32', 'float64']})
+
+
 def run_binspecs(c, res):
     """count, explicit edges, per-axis mixtures, on plain arrays"""
     ev = [[0.5, 0.5], [0.5, 0.6], [1.5, 2.5], [1.5, 2.6], [1.6, 2.4], [2.5, 0.5], [2.9, 3.9], [0.1, 3.9], [1.5, 2.5]]
@@ -537,6 +568,8 @@ def run_case(c):
             xe, ye = [0.0, 1.0, 2.0, 3.0], [0.0, 2.0, 4.0]
             judge(res, 'placements', 'density2d(events %r, gate_fraction=%r, sigma=%r)' % (ev, c['f'], c['sigma']), np.array(ev), [0, 1], [0, 1],
                   lambda: [np.array(xe), np.array(ye)], c['f'], c['sigma'], c, expect_edges=(xe, ye))
+        elif k == 'float32':
+            run_float32(c, res)
         elif k == 'sparse':
             run_sparse(c, res)
         elif k == 'sparse-one':
